@@ -509,8 +509,9 @@ class _RunState:
             self.fault_seen = True
 
     def worker_dead(self):
-        w = self.worker_obj
-        return w is not None and w.worker_thread._st.state == DONE
+        # independent of tenpy's attribute names: sim thread 1 is the first thread created, i.e. the cache worker
+        ths = self.sched.threads
+        return self.cfg['threaded'] and len(ths) > 1 and ths[1].state == DONE
 
     def call(self, fn):
         """Run tenpy code; returns ('ok', value) or ('exc', exception)."""
@@ -520,13 +521,17 @@ class _RunState:
             return 'exc', e
 
     def abstract_state(self, opkind):
+        # reads internals of tenpy for the coverage measure only; a refactoring that renames them must not
+        # break the check, so every access is guarded
         w = self.worker_obj
-        if w is None:
-            s = (opkind, self.closed)
-        else:
-            stor = self.caches[0].long_term_storage
-            s = (opkind, self.closed, len(w.tasks.items), min(w.tasks.unfinished, 4), w.worker_thread._st.state,
-                 w.exit._flag, len(getattr(stor, '_waiting_for_load', ())), len(getattr(stor, '_loaded', ())))
+        s = (opkind, self.closed)
+        if w is not None:
+            try:
+                stor = self.caches[0].long_term_storage
+                s = (opkind, self.closed, len(w.tasks.items), min(w.tasks.unfinished, 4), w.worker_thread._st.state,
+                     w.exit._flag, len(getattr(stor, '_waiting_for_load', ())), len(getattr(stor, '_loaded', ())))
+            except AttributeError:
+                pass
         self.states.add(core.h64(s))
 
     # ---------------------------------------------------------------- open / close
@@ -558,7 +563,7 @@ class _RunState:
             cache = cache.__enter__()
         self.add_cache(0, cache)
         if cfg['threaded']:
-            self.worker_obj = cache.long_term_storage.worker
+            self.worker_obj = getattr(getattr(cache, 'long_term_storage', None), 'worker', None)
 
     def add_cache(self, idx, cache):
         self.caches[idx] = cache
@@ -617,8 +622,8 @@ class _RunState:
         self.cur_index = i
         self.cur_op_kind = kind
         sched = self.sched
-        if i in self.stalls and self.worker_obj is not None:
-            wst = self.worker_obj.worker_thread._st
+        if i in self.stalls and len(sched.threads) > 1:
+            wst = sched.threads[1]
             if wst.state != DONE:
                 wst.stalled_until = sched.now + self.stalls[i]
                 sched.probe('fault_fired:worker_stall')
@@ -769,7 +774,7 @@ class _RunState:
         key = op[2] if kind in ('get', 'getd', 'del', 'in', 'pop', 'set', 'setdefault') else None
         cache = self.caches[c]
         if key is not None:
-            facts['key_in_short_term_keys'] = key in cache.short_term_keys
+            facts['key_in_short_term_keys'] = key in getattr(cache, 'short_term_keys', ())
             facts['last_mutation_of_key'] = self.last_mut[c].get(key)
         ok = self.matches(exp, out)
         if self.closed:
